@@ -255,7 +255,52 @@ func journalCases(seed uint64, tier string, salt uint64) []Case {
 	return cs
 }
 
+// transferTargets: one contract sends value (0, 1, 7, more than it has) by CALL and CALLCODE to every kind of
+// address a transfer can name - the zero address, standard and Artela precompiles (succeeding and failing),
+// itself, the coinbase, the transaction sender and origin, an empty account, an address that does not exist -
+// and is itself invoked by different senders, the zero address included.
+func transferTargets(c Case, res *CaseResult, each func(jr journalRun, label string)) {
+	fork := h.Fork(c.P[0])
+	r := h.NewRNG(c.Seed)
+	targets := []common.Address{{}, common.BytesToAddress([]byte{1}), common.BytesToAddress([]byte{2}), common.BytesToAddress([]byte{4}), common.BytesToAddress([]byte{6}), common.BytesToAddress([]byte{9}),
+		common.BytesToAddress([]byte{0x64}), common.BytesToAddress([]byte{0x66}), h.ContractAddr(0), h.ContractAddr(1), h.Coinbase, h.Sender, h.Origin, h.EmptyAcct, h.Nobody, h.EOARich}
+	for _, from := range []common.Address{h.Sender, {}, h.ContractAddr(1)} {
+		a := h.NewAsm()
+		n := 0
+		for _, t := range targets {
+			for _, kind := range []byte{h.CALL, h.CALLCODE} {
+				if !r.Chance(70) {
+					continue
+				}
+				val := []uint64{0, 1, 7, 1 << 40}[r.Intn(4)]
+				inLen := []uint64{0, 1, 64, 213}[r.Intn(4)] // (213 zero bytes: an invalid blake2f input; 64: a bn256 point)
+				a.PushU(32).PushU(0x400).PushU(inLen).PushU(0).PushU(val).PushAddr(t).PushU(uint64(20000+r.Intn(60000))).Op(kind, h.POP)
+				n++
+			}
+		}
+		a.Op(h.STOP)
+		callee := h.NewAsm().PushU(1).PushU(0).Op(h.SSTORE, h.STOP)
+		w := h.BaseWorld([][]byte{a.Bytes(), callee.Bytes()})
+		w.Set(h.Acct{Addr: common.Address{}, Balance: big.NewInt(1_000_000), Nonce: 0})
+		sc := &scenario{Fork: fork, NContract: 2, World: w, Tx: h.TxSpec{Entry: h.ECall, From: from, To: h.ContractAddr(0), Input: []byte{1}, Gas: 5_000_000, Value: big.NewInt(int64(r.Intn(3)))}}
+		fs := h.NewForkSession(sc.World, h.EnvSpec{Fork: sc.Fork}, h.ForkOpts{Debug: true, RecSteps: true, JoinPoints: c.Seed%2 == 0})
+		sj := attachShadowJournal(fs)
+		ir := fs.Invoke(sc.Tx)
+		jr := journalRun{fs: fs, sj: sj, ir: ir, desc: fmt.Sprintf("transfer targets fork=%s sender=%s calls=%d seed=%d", fork, from.Hex(), n, c.Seed)}
+		if ir.Panic == "" {
+			jr.sh = buildShadow(fs.L, fs.Rules.IsEIP150)
+		}
+		each(jr, "targets")
+		res.Count("special_target_runs", 1)
+		res.Evals++
+	}
+}
+
 func journalWorkload(c Case, res *CaseResult, each func(jr journalRun, label string)) {
+	if c.Kind == "targets" {
+		transferTargets(c, res, each)
+		return
+	}
 	sc, r := journalScenario(c.Seed, c10Kinds, h.Frontier, h.Cancun)
 	jr := runJournalScenario(sc, nil, false)
 	each(jr, "plain")
@@ -316,7 +361,19 @@ func init() {
 		Rule: "the harness supplies the block context's Transfer function: it reads both real balances immediately before and after delegating to the genuine core.Transfer and logs them; for each observed transfer the expected balance-journal entries (per account and shadow call index: sender before, recipient before, sender after, recipient after, immediate repeats collapsed, as integers) are compared with the COMPLETE dump of account roots (no entry without a transfer) and with Balance(); " +
 			"workloads: C10's call trees (values 0/1/small/more than the balance, self-calls with value, transfers to new and code-less accounts, endowments of contracts under creation, frames that later revert, injected join-point failures); distinct_nontrivial = distinct event shapes of runs with at least 2 transfers",
 		Assumptions: []string{"core.Transfer and go-ethereum's StateDB balances are the ground truth", "call index from the shadow call log (the attempt whose node is open when the transfer happens)"},
-		Cases:       func(seed uint64, tier string) []Case { return journalCases(seed, tier, 0xC13) },
+		Cases: func(seed uint64, tier string) []Case {
+			cs := journalCases(seed, tier, 0xC13)
+			reps := 1
+			if !quick(tier) {
+				reps = 20
+			}
+			for f := h.Frontier; f <= h.Cancun; f++ {
+				for k := 0; k < reps; k++ {
+					cs = append(cs, Case{Kind: "targets", P: []int64{int64(f)}, Seed: h.Mix(seed, 0xC13F, uint64(f), uint64(k))})
+				}
+			}
+			return cs
+		},
 		Run: func(c Case, tier string) (res CaseResult) {
 			journalWorkload(c, &res, func(jr journalRun, label string) { checkC13(&res, jr, label) })
 			return
